@@ -53,6 +53,9 @@ def build_corpus(tier, seed):
             b, r = gen.enumerate_blocks(v, [["*"], ["*", "*"]], 4)
             gstats[name] = len(b)
             xs += b
+        b, r = gen.enumerate_blocks(gen.mem3_vocab(), [["*", "*", "*"]], 4)
+        gstats["mem3"] = len(b)
+        xs += b
         sim = []
         for name, v, n in (("mem", gen.mem_vocab(), 40), ("sto", gen.sto_vocab(), 30),
                            ("mixed", gen.mem_vocab(small=True) + gen.sto_vocab() + gen.split_vocab() + gen.stack_vocab(), 50)):
@@ -105,7 +108,7 @@ def plan(tier, groups, seed):
                 cmds += corpus.sample(groups["R"], 40, seed + i)
             else:
                 cmds += groups["Xrule"] if i < 2 else corpus.sample(groups["Xrule"], 400, seed + i)
-                cmds += corpus.sample(groups["Xvoc"], 1500, seed) if i == 0 else corpus.sample(groups["Xvoc"], 300, seed + i)
+                cmds += corpus.sample(groups["Xvoc"], 2500, seed) if i == 0 else corpus.sample(groups["Xvoc"], 300, seed + i)
                 cmds += groups["Xpair"] if i == 0 else corpus.sample(groups["Xpair"], 300, seed + i)
                 cmds += groups["S"]
                 cmds += groups["R"]
